@@ -763,6 +763,37 @@ impl<'s> Visit<'s> for Rw<'s> {
                         }
                     }
                 }
+                // R20: `match v[..] { [a, b] => X, [a] => Y, _ => Z }` (slice patterns of plain binders, no rest pattern)
+                // is `match v.len() { 2 => { let a = v[0]; let b = v[1]; X } 1 => { let a = v[0]; Y } _ => Z }`:
+                // a slice pattern of n binders matches exactly the slices of length n and binds copies of the elements
+                if let syn::Expr::Index(ix) = &*m.expr {
+                    let full = matches!(&*ix.index, syn::Expr::Range(r) if r.start.is_none() && r.end.is_none());
+                    let simple = m.arms.iter().all(|a| a.guard.is_none() && match &a.pat {
+                        syn::Pat::Slice(sl) => sl.elems.iter().all(|e| matches!(e, syn::Pat::Ident(pi) if pi.by_ref.is_none() && pi.subpat.is_none())),
+                        syn::Pat::Wild(_) => true,
+                        _ => false,
+                    });
+                    if full && simple && m.arms.iter().any(|a| matches!(a.pat, syn::Pat::Slice(_))) {
+                        let base = self.text(ix.expr.span()).to_string();
+                        let (sa, sb) = br(m.expr.span());
+                        self.edit(sa, sb, &format!("{}.len()", base), "R20", &format!("slice-pattern match on `{}[..]` desugared to a match on its length at {}", norm(&base), self.loc(e.span())));
+                        for arm in &m.arms {
+                            if let syn::Pat::Slice(sl) = &arm.pat {
+                                let (pa, pb) = br(arm.pat.span());
+                                self.edit(pa, pb, &format!("{}", sl.elems.len()), "R20", "slice pattern -> its length");
+                                let mut lets = String::from("{ ");
+                                for (i, el) in sl.elems.iter().enumerate() {
+                                    if let syn::Pat::Ident(pi) = el {
+                                        lets.push_str(&format!("let {} = {}[{}]; ", pi.ident, base, i));
+                                    }
+                                }
+                                let (ba, bb) = br(arm.body.span());
+                                self.edit(ba, ba, &lets, "R20", "slice pattern binders");
+                                self.edit(bb, bb, " }", "R20", "slice pattern binders close");
+                            }
+                        }
+                    }
+                }
                 for arm in &m.arms {
                     let label = format!("match arm `{}` ({}:{})", norm(self.text(arm.pat.span())).chars().take(70).collect::<String>(), self.src.rel, arm.pat.span().start().line);
                     self.register_arm(arm.body.span(), label);
